@@ -439,3 +439,15 @@ Definition wf_wchart_with (tol : Q) (tbl : list Q) (lay : slayout) (dflt : text)
   end.
 Definition wf_wchart (tol : Q) (tbl : list Q) (lay : slayout) (dflt : text) (c : wchart) : bool :=
   wf_wchart_with tol tbl lay dflt c (write_snaps tbl c).
+
+(* ================================================================ structural obligations on a channel layout ================================================================ *)
+(* channel ids distinct two-character base-36 ids, values distinct (lane lookup is injective in both directions),
+   columns below MAX_KEYS, and the three header channels are the format's 02 / 03 / 08 *)
+Definition layout_ok (max_keys : Z) (lay : list (text * Z)) : bool :=
+  no_dup_by text_eqb (map fst lay)
+  && no_dup_by Z.eqb (map snd lay)
+  && forallb (fun kv => is_b36_pair (fst kv) && (-3 <=? snd kv) && (snd kv <? max_keys)) lay
+  && match layout_rev lay V_TIME_SIG, layout_rev lay V_BPM, layout_rev lay V_EXBPM with
+     | Some a, Some b, Some c => text_eqb a CH_TIME_SIG && text_eqb b CH_BPM && text_eqb c CH_EXBPM
+     | _, _, _ => false
+     end.
